@@ -41,6 +41,9 @@ var c13Defs = []constDefs{
 	{[]string{"const Éa = 6", "const Ké = Éa + 1"}, "Ké", "6 + 1", false},
 	{[]string{"const _k = 4", "const _ = _k"}, "_", "4", false},
 	{[]string{"const k9z = 0x2"}, "k9z", "0x2", false},
+	// a value that names a constant defined LATER (the value of K is the token J: uses of K are written J everywhere)
+	{[]string{"const K = J", "const J = 7"}, "K", "J", false},
+	{[]string{"const K = VAR_J", "const L = K", "const VAR_J = VAR_0x8004"}, "L", "VAR_J", false},
 }
 
 const c13Template = `script S {
@@ -69,6 +72,13 @@ const c13Template = `script S {
 	if (avfix(@11@, q) < @12@) {
 		g
 	}
+	while (avp0(@26@, q) != 1) {
+		g2
+	}
+	switch (avp1(w, @27@)) {
+		case 3:
+			g3
+	}
 	goto(@13@)
 }
 
@@ -91,10 +101,10 @@ mart Mt {
 }
 `
 
-const c13Sites = 26
+const c13Sites = 28
 
 // sites where a value with parentheses cannot be written out literally
-var c13NoParens = map[int]bool{24: true, 25: true, 21: true, 19: true, 20: true, 2: true, 3: true, 4: true, 5: true, 6: true, 7: true, 9: true, 10: true, 12: true, 14: true, 15: true, 16: true, 18: true}
+var c13NoParens = map[int]bool{26: true, 27: true, 24: true, 25: true, 21: true, 19: true, 20: true, 2: true, 3: true, 4: true, 5: true, 6: true, 7: true, 9: true, 10: true, 12: true, 14: true, 15: true, 16: true, 18: true}
 
 func c13Fill(vals map[int]string) string {
 	s := c13Template
@@ -317,7 +327,7 @@ func runC13(tier string) int {
 	r.Assume("values with parentheses are only used at sites where nested parentheses can be written out literally (command arguments, value(...))",
 		"const lines are replaced by blank lines so that line markers stay comparable")
 	return r.Finish(r.Get("evaluations"), r.Get("nontrivial"),
-		"15 definition sets (single token, multi-token, parenthesised, const from const two levels deep, hex, negative, multi-byte value; constant names with a non-ASCII first letter, a non-ASCII letter inside, a leading underscore, lower case with digits) x every single use site, every pair and triple (thorough: quadruple) and all 26 documented use sites (five of them inside a larger expression) at once (command argument incl. nested, flag/var/defeated operands, comparison values incl. value(), switch operand and case value, AutoVar argument and comparison, goto target, map-script table var/value and inline body, mart item) + 8 non-positions (command name, movement step, label, moves() step, text content, script/text/mapscripts names, raw) + use before definition + redefinition + chains of K constants and K independent constants for every K up to the bound in the coverage; outputs compared byte for byte with line markers on, optimize on/off; also every program of the control-flow families (C01 / C03 / C04 bounds) with every operand, comparison value and case value written as a constant; non-trivial = multi-token or chained definition")
+		"17 definition sets (a value naming a constant that is defined later; single token, multi-token, parenthesised, const from const two levels deep, hex, negative, multi-byte value; constant names with a non-ASCII first letter, a non-ASCII letter inside, a leading underscore, lower case with digits) x every single use site, every pair and triple (thorough: quadruple) and all 28 documented use sites (incl. the var argument of AutoVar commands with var_name_arg_position 0 and 1) (five of them inside a larger expression) at once (command argument incl. nested, flag/var/defeated operands, comparison values incl. value(), switch operand and case value, AutoVar argument and comparison, goto target, map-script table var/value and inline body, mart item) + 8 non-positions (command name, movement step, label, moves() step, text content, script/text/mapscripts names, raw) + use before definition + redefinition + chains of K constants and K independent constants for every K up to the bound in the coverage; outputs compared byte for byte with line markers on, optimize on/off; also every program of the control-flow families (C01 / C03 / C04 bounds) with every operand, comparison value and case value written as a constant; non-trivial = multi-token or chained definition")
 }
 
 var (
